@@ -98,6 +98,7 @@ C("tokenize.py::Token.strip",
   ensures=["same_origin(result, self)",
            "result.pos >= self.pos",
            "result.pos + len(result) <= self.pos + len(self)",
+           "text(result) == text(self).lstrip().rstrip()",
            "not anchored(self) or anchored(result)"],
   result="Token", serves=["C11", "C12"])
 
